@@ -27,6 +27,8 @@ func runC10(p *Program, r *Report) {
 	ruleR105(p, r)
 	r.Rule("R10.6", "E2", 5, "reversible for the owner: generateNewValue stores the original value under the key of the new token and returns that token; Deanonymize looks the token up under the same key construction, checks the stored type, and returns the token itself when nothing is found")
 	ruleR106(p, r)
+	r.Rule("R10.8", "E3", 2, "a bound value is tokenized once: the loop that replaces bound values by tokens skips an index it has already processed")
+	ruleTransformOnce(p, r, "R10.8", []string{"pseudonymization.(*PostgreSQLTokenizeQuery).replaceValuesWithTokenizedData", "pseudonymization.(*MySQLTokenizeQuery).replaceValuesWithTokenizedData"})
 	r.Rule("R10.7", "E1", 2, "placeholder positions in the tokenizing Bind handlers are range-checked on both sides (0 <= index < len(values)) where they are recorded")
 	ruleBindIndex(p, r, "R10.7", []string{"pseudonymization.(*PostgreSQLTokenizeQuery).OnBind", "pseudonymization.(*MySQLTokenizeQuery).OnBind"})
 }
@@ -505,6 +507,50 @@ func ruleR104(p *Program, r *Report) {
 		}
 	}
 	r.Check(okDeriv, "R10.4", name, "record key derives from value, context and type", p.Pos(get.Pos()), "all three reach the key", "the value->token key no longer depends on the value, the client context or the token type: different values or different clients share a record")
+	// (b') the value reaches the key only through the encoders confirmed injective by reading (frozen table)
+	{
+		injective := map[string]string{
+			"encodeToBytes":      "type-checked byte encoding: fixed-width little endian for integers, the bytes themselves for strings/bytes/e-mail",
+			"generateDataID":     "SHA-256 over delimiter, value, context and type",
+			"generateKeyForHash": "constant prefix 'h.'",
+		}
+		var foreign []string
+		for v := range cl {
+			c, ok := v.(*ssa.Call)
+			if !ok {
+				continue
+			}
+			if _, isB := c.Call.Value.(*ssa.Builtin); isB {
+				continue
+			}
+			co := calleeOfCommon(c.Common())
+			if co != nil && injective[co.Name()] != "" && co.Pkg() != nil && co.Pkg().Path() == acraMod+"/pseudonymization" {
+				continue
+			}
+			nm := "an indirect call"
+			if co != nil {
+				nm = co.FullName()
+			}
+			foreign = append(foreign, nm)
+		}
+		sort.Strings(foreign)
+		r.Check(len(foreign) == 0, "R10.4", name, "value reaches the record key only through injective encoders", p.Pos(get.Pos()), "encodeToBytes -> generateDataID -> generateKeyForHash", "the value passes through "+strings.Join(foreign, ", ")+" before it is hashed into the record key: two different values that this step maps to the same bytes share one token")
+		// encodeToBytes itself: only the integer encoders and conversions
+		if enc := p.Func("pseudonymization.encodeToBytes"); enc == nil || enc.Blocks == nil {
+			r.Anchor("R10.4", "encodeToBytes")
+		} else {
+			bad := ""
+			for _, cs := range callsIn(enc) {
+				if _, isB := cs.Instr.Common().Value.(*ssa.Builtin); isB {
+					continue
+				}
+				if cs.Callee == nil || (cs.Callee.Name() != "encodeInt32" && cs.Callee.Name() != "encodeInt64") {
+					bad = "calls something other than the fixed-width integer encoders"
+				}
+			}
+			r.Check(bad == "", "R10.4", fnName(enc), "byte encoding is the value itself", p.Pos(enc.Pos()), "conversions and fixed-width integer encoders only", bad)
+		}
+	}
 	gid := p.Func("pseudonymization.(*pseudoanonymizer).generateDataID")
 	if gid == nil || gid.Blocks == nil {
 		r.Anchor("R10.4", "generateDataID")
@@ -524,6 +570,15 @@ func ruleR104(p *Program, r *Report) {
 				ok = false
 			}
 		}
+		// the value itself is written, unmodified
+		asIs := false
+		for _, c := range callsIn(gid) {
+			cm := c.Instr.Common()
+			if cm.IsInvoke() && cm.Method.Name() == "Write" && cm.Args[0] == ssa.Value(paramByName(gid, "data")) {
+				asIs = true
+			}
+		}
+		ok = ok && asIs
 		// context: both ClientID and AdditionalContext alternatives are written
 		fieldsSeen := map[string]bool{}
 		for v := range hashed {
@@ -968,10 +1023,12 @@ func init() {
 	mut("C10", "consistent record saved under the token prefix", "pseudonymization/tokenizer.go", "	if err := p.storage.Save(digestKey, context, encodedNewValue); err != nil {", "	if err := p.storage.Save(p.generateKeyForToken(digest), context, encodedNewValue); err != nil {", "R10.4", "same key")
 	mut("C10", "lost race is never retried", "pseudonymization/tokenizer.go", "		if err == common.ErrTokenExists && !triedGetOnce {", "		if err == common.ErrTokenExists && triedGetOnce {", "R10.4", "at most once")
 	mut("C10", "record id ignores the client context", "pseudonymization/tokenizer.go", "		h.Write([]byte(`client`))\n		h.Write(context.ClientID)\n	}\n	h.Write(dataIDDelim)", "		h.Write([]byte(`client`))\n	}\n	h.Write(dataIDDelim)", "R10.4", "hashes value, context and type")
+	mut("C10", "consistent key takes a lower-cased copy of string values", "pseudonymization/tokenizer.go", "	dataBytes, err := encodeToBytes(data, dataType)\n	if err != nil {\n		return nil, err\n	}\n	digest, err := p.generateDataID(dataBytes, context, dataType)", "	dataBytes, err := encodeToBytes(data, dataType)\n	if err != nil {\n		return nil, err\n	}\n	dataBytes = []byte(strconv.Quote(string(dataBytes)))[:len(dataBytes)]\n	digest, err := p.generateDataID(dataBytes, context, dataType)", "R10.4", "injective encoders")
 	mut("C10", "Tokenize passes Int64 for an Int32 column", "pseudonymization/dataTokenizer.go", "		newVal, err := anonymize(int32(i), context, common.TokenType_Int32)", "		newVal, err := anonymize(int32(i), context, common.TokenType_Int64)", "R10.5", "Int32")
 	mut("C10", "Detokenize loses the e-mail case", "pseudonymization/dataTokenizer.go", "	case common.TokenType_Email:\n		newVal, err := t.tokenizer.Deanonymize(common.Email(data), context, common.TokenType_Email)\n		if err != nil {\n			return nil, err\n		}\n		return []byte(newVal.(common.Email)), nil\n", "", "R10.5", "Detokenize")
 	mut("C10", "token record keyed by the original value", "pseudonymization/tokenizer.go", "		encodedNewValue, err := encodeToBytes(newValue, dataType)\n		if err != nil {\n			return nil, err\n		}\n		key, err := p.generateDataID(encodedNewValue, context, dataType)", "		encodedNewValue, err := encodeToBytes(value, dataType)\n		if err != nil {\n			return nil, err\n		}\n		key, err := p.generateDataID(encodedNewValue, context, dataType)", "R10.6", "record key")
 	mut("C10", "unknown token becomes an error", "pseudonymization/tokenizer.go", "		p.logger.Warningln(\"Token not found, return as is\")\n		return token, nil", "		p.logger.Warningln(\"Token not found, return as is\")\n		return nil, err", "R10.6", "unknown token")
 	mut("C10", "stored type no longer checked", "pseudonymization/tokenizer.go", "	if tokenValue.Type != dataType {\n		return nil, ErrDataTypeMismatch\n	}\n", "", "R10.6", "stored type")
+	mut("C10", "mysql: repeated placeholder tokenized twice (original defect)", "pseudonymization/mysql_tokenize_query.go", "		if _, done := processed[valueIndex]; done {\n			continue\n		}\n", "", "R10.8", "transformed once")
 	mut("C10", "pg tokenizer OnBind: lower bound dropped (original defect)", "pseudonymization/postgresql_tokenize_query.go", "		if index < 0 || index >= len(values) {", "		if index >= len(values) {", "R10.7", "OnBind")
 }
